@@ -1,6 +1,7 @@
 /-
   Reference semantics for programs with the cut, for rule bodies built from calls, built-ins, `!`, conjunctions
-  and disjunctions nested to any depth (no `not`, no `time`): the machine of `Spec/CutMachine.lean` with groups.
+  and disjunctions nested to any depth, `not(...)` and `time(...)`: the machine of `Spec/CutMachine.lean` with groups,
+  and the negation of `Spec/PureMachine.lean`.
 
     * every goal of a clause body knows the BARRIER of its clause: the height of the stack below the `try`
       frame of the call that chose the clause;
@@ -11,7 +12,13 @@
       its body, and the end-of-body marker, into committing ones;
     * a committing marker, when reached, cuts the stack back to the barrier once more (Suiron's documented rule:
       "backtracking is disabled on the cut and all its ancestors up to that call": each enclosing group, and
-      finally the call, yields nothing beyond the answer being derived).
+      finally the call, yields nothing beyond the answer being derived);
+    * `not(G)` and `time(G)` run a search of their own for G (frames `notF` / `timeF` holding the stack of that
+      search): `not` continues under its own, unchanged bindings when the search runs empty and fails as soon as it
+      shows an answer; `time` continues under the first answer (there is no second) or fails when there is none,
+      and writes the elapsed time either way.  The counter and the text written by the inner search are kept.
+      (What a `!` written directly inside `not(...)` / `time(...)` does is not defined here: the refinement theorem
+      excludes it, as the property does.)
 -/
 import SuironVerif.Model.Engine
 namespace Suiron.Spec.Grp
@@ -28,6 +35,8 @@ inductive CG where
 inductive CFrame where
   | goals (k : List CG) (σ : Subst)
   | try (t : Term) (σ : Subst) (idx n : Nat) (k : List CG)
+  | notF (alts : List CFrame) (σ : Subst) (k : List CG)
+  | timeF (alts : List CFrame) (k : List CG)
 
 structure CConf where
   stack : List CFrame
@@ -94,6 +103,24 @@ inductive CStep (fo : FloatOps) (kb : KB) : CConf → CConf → Prop where
   | endBody {h k σ S c o} : CStep fo kb ⟨.goals (.endB h false :: k) σ :: S, c, o⟩ ⟨.goals k σ :: S, c, o⟩
   /-- the end of a body in which a cut ran: nothing created since the call began survives -/
   | commitBody {h k σ S c o} : CStep fo kb ⟨.goals (.endB h true :: k) σ :: S, c, o⟩ ⟨.goals k σ :: truncate S h, c, o⟩
+  /-- negation: the negated goal (the first operand) gets a search of its own -/
+  | notEnter {g gs b k σ S c o} :
+      CStep fo kb ⟨.goals (.g (.not (.cons g gs)) b :: k) σ :: S, c, o⟩ ⟨.notF [.goals [.g g 0] σ] σ k :: S, c, o⟩
+  | notIn {A A' σ k S c o c' o'} : CStep fo kb ⟨A, c, o⟩ ⟨A', c', o'⟩ →
+      CStep fo kb ⟨.notF A σ k :: S, c, o⟩ ⟨.notF A' σ k :: S, c', o'⟩
+  /-- the inner search ran empty: the negation holds, nothing is bound -/
+  | notOk {σ k S c o} : CStep fo kb ⟨.notF [] σ k :: S, c, o⟩ ⟨.goals k σ :: S, c, o⟩
+  /-- the inner search shows an answer: the negation fails, once and for all -/
+  | notFail {σ' A σ k S c o} : CStep fo kb ⟨.notF (.goals [] σ' :: A) σ k :: S, c, o⟩ ⟨S, c, o⟩
+  /-- timing: the timed goal (the first operand) gets a search of its own -/
+  | timeEnter {g gs b k σ S c o} :
+      CStep fo kb ⟨.goals (.g (.time (.cons g gs)) b :: k) σ :: S, c, o⟩ ⟨.timeF [.goals [.g g 0] σ] k :: S, c, o⟩
+  | timeIn {A A' k S c o c' o'} : CStep fo kb ⟨A, c, o⟩ ⟨A', c', o'⟩ →
+      CStep fo kb ⟨.timeF A k :: S, c, o⟩ ⟨.timeF A' k :: S, c', o'⟩
+  /-- no answer: the timed goal fails; the elapsed time is written -/
+  | timeNone {k S c o} : CStep fo kb ⟨.timeF [] k :: S, c, o⟩ ⟨S, c, cEmit o "<elapsed>"⟩
+  /-- the first answer is the only one: the rest of the inner search is dropped; the elapsed time is written -/
+  | timeSome {σ' A k S c o} : CStep fo kb ⟨.timeF (.goals [] σ' :: A) k :: S, c, o⟩ ⟨.goals k σ' :: S, c, cEmit o "<elapsed>"⟩
 
 inductive CSteps (fo : FloatOps) (kb : KB) : CConf → CConf → Prop where
   | refl {c} : CSteps fo kb c c
@@ -105,6 +132,19 @@ theorem CSteps.trans {fo : FloatOps} {kb : KB} {a b c : CConf} (h1 : CSteps fo k
   | step hs _ ih => exact .step hs (ih h2)
 
 theorem CSteps.one {fo : FloatOps} {kb : KB} {a b : CConf} (h : CStep fo kb a b) : CSteps fo kb a b := .step h .refl
+
+/-- a run of the inner search is a run of the frame that holds it -/
+theorem CSteps.notIn {fo : FloatOps} {kb : KB} {x y : CConf} (h : CSteps fo kb x y) (σ : Subst) (k : List CG) (S : List CFrame) :
+    CSteps fo kb ⟨.notF x.stack σ k :: S, x.ctr, x.out⟩ ⟨.notF y.stack σ k :: S, y.ctr, y.out⟩ := by
+  induction h with
+  | refl => exact .refl
+  | step hs _ ih => exact .step (.notIn hs) ih
+
+theorem CSteps.timeIn {fo : FloatOps} {kb : KB} {x y : CConf} (h : CSteps fo kb x y) (k : List CG) (S : List CFrame) :
+    CSteps fo kb ⟨.timeF x.stack k :: S, x.ctr, x.out⟩ ⟨.timeF y.stack k :: S, y.ctr, y.out⟩ := by
+  induction h with
+  | refl => exact .refl
+  | step hs _ ih => exact .step (.timeIn hs) ih
 
 /-- what successive observers see (as `MRun` of the cut-free machine) -/
 inductive CRun (fo : FloatOps) (kb : KB) : CConf → List (Option Subst × List String) → Prop where
